@@ -118,6 +118,13 @@ let handle = function
             let (chunks, r') = take n [] r in
             ignore (path_of "a" id);
             calls (CPut (bytes_of_hex id, chunks, z_of_int (int_of_string tm)) :: acc) r'
+        | "putr" :: id :: tm :: seek1 :: ok1 :: pass1 :: seek2 :: n :: r ->
+            let n = int_of_string n in
+            let rec take k acc r = if k = 0 then (List.rev acc, r) else (match r with x :: t -> take (k - 1) (arg x :: acc) t | [] -> failwith "chunks") in
+            let (chunks, r') = take n [] r in
+            ignore (path_of "a" id);
+            let rd = { rd_seek1 = bool_of seek1; rd_pass1 = arg pass1; rd_ok1 = bool_of ok1; rd_seek2 = bool_of seek2; rd_pass2 = chunks } in
+            calls (CPutR (bytes_of_hex id, rd, z_of_int (int_of_string tm)) :: acc) r'
         | "get" :: id :: r -> calls (CGet (bytes_of_hex id) :: acc) r
         | "getbytes" :: id :: r -> calls (CGetBytes (bytes_of_hex id) :: acc) r
         | "getfile" :: id :: r -> calls (CGetFile (bytes_of_hex id) :: acc) r
